@@ -231,7 +231,7 @@ PROPS["C04"] = {
     "mc": [],
     "drivers": {
         "quick": [cl("c04", [], 3)],
-        "thorough": [cl("c04", ["--thorough"], 6)],
+        "thorough": [cl("c04", ["--thorough", "--maxruns", "1500"], 6)],
     },
     "goals": {"cov_drop_Ping": {"quick": 50}, "cov_drop_Ack": {"quick": 50}, "cov_drop_PingReq": {"quick": 1},
               "cov_drop_IndirectPing": {"quick": 1}, "cov_drop_IndirectAck": {"quick": 1},
@@ -243,7 +243,7 @@ PROPS["C05"] = {
     "mc": [],
     "drivers": {
         "quick": [cl("c05", [], 3)],
-        "thorough": [cl("c05", ["--thorough"], 8)],
+        "thorough": [cl("c05", ["--thorough", "--maxruns", "400"], 6)],
     },
     "goals": {"cov_informative": {"quick": 60, "thorough": 400}},
 }
@@ -467,7 +467,7 @@ for _p in ("C06", "C13"):
 
 # cluster runs in a debug-assertion build also serve C06 (panics are reported by Trace_Cluster)
 PROPS["C06"]["drivers"]["quick"] += [cl("c04", [], 2), cl("c02", ["--runs", "40", "--nmax", "8"], 1)]
-PROPS["C06"]["drivers"]["thorough"] += [cl("c04", ["--thorough"], 4), cl("c02", ["--runs", "200", "--nmax", "12"], 4)]
+PROPS["C06"]["drivers"]["thorough"] += [cl("c04", ["--thorough", "--maxruns", "1500"], 3), cl("c02", ["--runs", "200", "--nmax", "12"], 3)]
 
 
 # C05 on the specification: the exhaustive run of the partition/heal model (N=3) exceeds 1.5*10^7 states without
